@@ -157,6 +157,10 @@ class Harness:
                     # payload hands another payload to the runtime: adopt() does not run it here
                     h.do_adopt(cmd["adopt"], "payload:" + pid)
                 time.sleep(cmd.get("hold", 0.0))
+                if cmd.get("adopt_after"):
+                    # ... and hands over another one at the end of the section (others may have
+                    # asked the runtime for something meanwhile)
+                    h.do_adopt(cmd["adopt_after"], "payload:" + pid)
                 hooks.emit("p.seg.exit", p=pid, flavour=flavour)
             elif op == "adopt":
                 if cmd.get("own_loop") == "trio" and flavour == "threading":
@@ -563,7 +567,7 @@ class Harness:
             elif o == "wait_start":
                 self.wait_event(lambda e: e["e"] == "p.start" and e["p"] == op["p"], 2.0, "wait_start:" + op["p"])
             elif o in ("step", "seg"):
-                self.command(op["p"], dict(op))
+                self.command(op["p"], dict(op), wait=not op.get("nowait"))
             elif o == "end":
                 self.command(op["p"], {"op": "end", "how": op["how"]})
             elif o == "block":
